@@ -1,0 +1,34 @@
+//go:build verif
+
+// Contracts for the deductive verifier in /verif (gocv); comments only.
+
+package iterator
+
+// C02: an absolute move of the merged iterator positions EVERY source (a source left where it was would contribute
+// stale entries or none), each at the caller's key for Seek; only then is the smallest / largest picked.
+//@ count iterator.IteratorSeeker.Seek
+//@ count iterator.IteratorSeeker.First
+//@ count iterator.IteratorSeeker.Last
+//@ func (*mergedIterator).Seek
+//@   props C02
+//@   safety off
+//@   loop 1
+//@     invariant [C02:every-source-so-far-was-positioned] calls("iterator.IteratorSeeker.Seek") >= old(calls("iterator.IteratorSeeker.Seek")) + rangeidx
+//@   at before call iterator.IteratorSeeker.Seek#*
+//@     assert [C02:sources-are-sought-at-the-callers-key] sameslice(arg0, key)
+//@   at before call heap.Init#1
+//@     assert [C02:every-source-was-positioned] calls("iterator.IteratorSeeker.Seek") >= old(calls("iterator.IteratorSeeker.Seek")) + len(i.iters)
+//@ func (*mergedIterator).First
+//@   props C02
+//@   safety off
+//@   loop 1
+//@     invariant [C02:every-source-so-far-was-positioned] calls("iterator.IteratorSeeker.First") >= old(calls("iterator.IteratorSeeker.First")) + rangeidx
+//@   at before call heap.Init#1
+//@     assert [C02:every-source-was-positioned] calls("iterator.IteratorSeeker.First") >= old(calls("iterator.IteratorSeeker.First")) + len(i.iters)
+//@ func (*mergedIterator).Last
+//@   props C02
+//@   safety off
+//@   loop 1
+//@     invariant [C02:every-source-so-far-was-positioned] calls("iterator.IteratorSeeker.Last") >= old(calls("iterator.IteratorSeeker.Last")) + rangeidx
+//@   at before call heap.Init#1
+//@     assert [C02:every-source-was-positioned] calls("iterator.IteratorSeeker.Last") >= old(calls("iterator.IteratorSeeker.Last")) + len(i.iters)
